@@ -23,6 +23,7 @@ package server
 import (
 	"bytes"
 	"encoding/base64"
+	"encoding/binary"
 	"encoding/hex"
 	"encoding/json"
 	"errors"
@@ -31,19 +32,31 @@ import (
 	"sort"
 	"strings"
 	"sync"
+	"sync/atomic"
 	"testing"
 	"time"
 
 	"github.com/cbeuw/Cloak/internal/client"
+	"github.com/cbeuw/Cloak/internal/common"
+	"github.com/cbeuw/Cloak/internal/server/usermanager"
+	"github.com/cbeuw/Cloak/internal/verifhook"
 	kit "github.com/cbeuw/Cloak/internal/verifkit"
 )
 
 // ------------------------------------------------------------------------------------ verdict table
 
 func c07Key(tr string, tampers []string, off int, ustate string, served bool, sid string, rightKey bool) string {
+	return c07KeyC(tr, tampers, off, ustate, served, sid, rightKey, "none")
+}
+
+func c07KeyC(tr string, tampers []string, off int, ustate string, served bool, sid string, rightKey bool, cache string) string {
 	t := append([]string{}, tampers...)
 	sort.Strings(t)
-	return fmt.Sprintf("%s|%s|%d|%s|%v|%s|%v", tr, strings.Join(t, "+"), off, ustate, served, sid, rightKey)
+	k := fmt.Sprintf("%s|%s|%d|%s|%v|%s|%v", tr, strings.Join(t, "+"), off, ustate, served, sid, rightKey)
+	if cache != "" && cache != "none" {
+		k += "|cache-" + cache
+	}
+	return k
 }
 
 type c07Table struct {
@@ -60,7 +73,7 @@ func c07LoadTable(path string) (*c07Table, error) {
 		if err := json.Unmarshal(line, &c); err != nil {
 			return err
 		}
-		k := c07Key(c.Tr, c.Tampers, c.Off, c.UState, c.Served, c.Sid, c.RightKey)
+		k := c07KeyC(c.Tr, c.Tampers, c.Off, c.UState, c.Served, c.Sid, c.RightKey, c.Cache)
 		if old, ok := tb.m[k]; ok && (old.Verdict != c.Verdict || old.API != c.API) {
 			return fmt.Errorf("the table is not a function of the abstract case: %s", k)
 		}
@@ -69,7 +82,7 @@ func c07LoadTable(path string) (*c07Table, error) {
 		if len(c.Tampers) > tb.maxT {
 			tb.maxT = len(c.Tampers)
 		}
-		if len(c.Tampers) == 0 {
+		if len(c.Tampers) == 0 && (c.Cache == "" || c.Cache == "none") {
 			tb.untamped = append(tb.untamped, &c)
 		}
 		return nil
@@ -84,7 +97,7 @@ func c07LoadTable(path string) (*c07Table, error) {
 func c07Reason(c *c06Case) string {
 	for _, t := range c.Tampers {
 		switch t {
-		case "randsig", "nonce", "blockA", "blockB":
+		case "randsig", "nonce", "blockA", "blockB", "loworder":
 			return "tamper-" + t
 		}
 	}
@@ -563,7 +576,85 @@ func (r *c06Rig) c07One(env *c07Env, b *c07Base, e c07Edit, off int, offNs time.
 		env.res.Stat("missing_abstract_case", 1)
 		return
 	}
-	pkt := e.apply(b.pkt)
+	r.c07Packet(env, b, e.apply(b.pkt), classes, key, exp, e, off, offNs)
+}
+
+// c07SmallOrder: the encodings of the points of small order on curve25519 (u = 0, 1, the two points of order 8,
+// p-1, p, p+1; RFC 7748 section 6.1 / the well-known list): X25519 maps each of them to the all-zero output
+// for every private key, with or without bit 255 set.
+var c07SmallOrder = []string{
+	"0000000000000000000000000000000000000000000000000000000000000000",
+	"0100000000000000000000000000000000000000000000000000000000000000",
+	"e0eb7a7c3b41b8ae1656e3faf19fc46ada098deb9c32b1fd866205165f49b800",
+	"5f9c95bca3508c24b1d0b1559c83ef5b04445cc4581c8e86d8224eddd09f1157",
+	"ecffffffffffffffffffffffffffffffffffffffffffffffffffffffffffff7f",
+	"edffffffffffffffffffffffffffffffffffffffffffffffffffffffffffff7f",
+	"eeffffffffffffffffffffffffffffffffffffffffffffffffffffffffffff7f",
+}
+
+// c07Forge builds the first packet of somebody who knows a UID but NOT the server's public key: the random is
+// the small-order point, the 48-byte plaintext (the identity of the base packet, its stamp) is AES-GCM-sealed
+// under the all-zero "shared secret" with nonce = random[0:12] and laid into the places the locator found.
+func c07Forge(b *c07Base, which int, top bool) ([]byte, string, error) {
+	point, _ := hex.DecodeString(c07SmallOrder[which%len(c07SmallOrder)])
+	if top {
+		point[31] |= 0x80
+	}
+	pt := make([]byte, 48)
+	copy(pt, b.sealed.UID)
+	copy(pt[16:28], b.sealed.Method)
+	pt[28] = b.sealed.Enc
+	binary.BigEndian.PutUint64(pt[29:37], uint64(b.stamp))
+	binary.BigEndian.PutUint32(pt[37:41], b.sealed.Sid)
+	if b.sealed.Unord {
+		pt[41] |= 1
+	}
+	ct, err := common.AESGCMEncrypt(point[:12], make([]byte, 32), pt)
+	if err != nil || len(ct) != 64 {
+		return nil, "", fmt.Errorf("seal under the zero key: %v (%d bytes)", err, len(ct))
+	}
+	out := append([]byte{}, b.pkt...)
+	desc := fmt.Sprintf("random=%x sealed under the all-zero secret", point)
+	if b.lay.tls {
+		sid, ks := b.lay.fields["session-id"], b.lay.fields["key-share"]
+		if sid[1]-sid[0] != 32 || ks[1]-ks[0] != 32 {
+			return nil, "", errors.New("locator: session id / key share not 32 bytes")
+		}
+		copy(out[b.lay.randOff:b.lay.randOff+32], point)
+		copy(out[sid[0]:sid[1]], ct[:32])
+		copy(out[ks[0]:ks[1]], ct[32:])
+		return out, desc, nil
+	}
+	enc := base64.StdEncoding.EncodeToString(append(append([]byte{}, point...), ct...))
+	if len(enc) != b.lay.hidLen {
+		return nil, "", errors.New("hidden value length")
+	}
+	copy(out[b.lay.hidStart:], enc)
+	return out, desc, nil
+}
+
+// c07Forged presents the forgery for small-order point `which` under one clock offset.
+func (r *c06Rig) c07Forged(env *c07Env, b *c07Base, which int, top bool, off int, offNs time.Duration) {
+	pkt, desc, err := c07Forge(b, which, top)
+	if err != nil {
+		env.res.Note("forge: %v", err)
+		env.res.Stat("harness_errors", 1)
+		return
+	}
+	classes := []string{"loworder"}
+	key := c07Key(b.cs.Tr, classes, off, b.cs.UState, b.cs.Served, b.cs.Sid, b.cs.RightKey)
+	exp := env.tb.m[key]
+	if exp == nil {
+		env.res.Note("no abstract case for %s", key)
+		env.res.Stat("missing_abstract_case", 1)
+		return
+	}
+	env.res.Stat("small_order_forgeries", 1)
+	r.c07Packet(env, b, pkt, classes, key, exp, desc, off, offNs)
+}
+
+// c07Packet presents pkt (derived from base b, touching `classes`) and judges the observation against exp.
+func (r *c06Rig) c07Packet(env *c07Env, b *c07Base, pkt []byte, classes []string, key string, exp *c06Case, e any, off int, offNs time.Duration) {
 	r.setClock(b.stamp, offNs)
 	obs := r.present(pkt, b.sealed.UID, b.sealed.Sid)
 	var ci ClientInfo
@@ -593,9 +684,9 @@ func (r *c06Rig) c07One(env *c07Env, b *c07Base, e c07Edit, off int, offNs time.
 			env.res.Note("dispatch goroutine still running after the peer hung up: %s edit %v -> %s %s", key, e, obs.Outcome, obs.ReplyHead)
 		}
 	}
-	if obs.Outcome != "redirect" && obs.Outcome != "reply" && len(e.Pos) > 0 {
+	if obs.Outcome != "redirect" && obs.Outcome != "reply" && len(classes) > 0 {
 		env.res.Stat("neither_relayed_nor_answered:"+exp.Verdict, 1)
-		env.res.Note("neither relayed nor answered: %s edit %v (byte %q -> %q) -> %s", key, e, b.pkt[e.Pos[0]], b.pkt[e.Pos[0]]^e.Xor[0], obs.Outcome)
+		env.res.Note("neither relayed nor answered: %s edit %v -> %s", key, e, obs.Outcome)
 	}
 	if obs.Outcome == "redirect" && !obs.PrefixOK {
 		env.res.Stat("redirect_bytes_differ(C09)", 1)
@@ -801,6 +892,238 @@ func (r *c06Rig) c07Client(env *c07Env, cs *c06Case, c c06Conc) {
 	}
 }
 
+// ------------------------------------------------------------------------------------ part C: user histories
+//
+// "names a UID the server CURRENTLY authorises": a database user connects (authorised), is then revoked in the
+// database (deleted / expired / credit used up) - or not (control) - and connects again with a NEW session id
+// while the panel still has its record cached:
+//   cache = idle: the record is session-less: the goroutine that closed the user's last session is parked at hook
+//                 point user.closesession.unlocked, i.e. after the session table became empty and before
+//                 TerminateActiveUser removes the record;
+//   cache = busy: the first connection (another session id) is still up.
+// Expected (table): revoked => no handshake reply (relayed to the redirect target, or left unanswered as HEAD does
+// when GetSession refuses); still authorised => reply.  Joining an EXISTING session id is not part of this.
+
+type c07Gate struct {
+	parked  chan struct{}
+	release chan struct{}
+}
+
+var c07GateMu sync.Mutex
+var c07Gates = map[uint64]*c07Gate{}
+var c07NextSid atomic.Uint32
+
+func c07InstallGateHook() {
+	verifhook.Set(func(point string, args ...uint64) {
+		if point != "user.closesession.unlocked" || len(args) < 2 || args[1] != 0 {
+			return
+		}
+		c07GateMu.Lock()
+		g := c07Gates[args[0]]
+		delete(c07Gates, args[0])
+		c07GateMu.Unlock()
+		if g != nil {
+			close(g.parked)
+			<-g.release
+		}
+	})
+}
+
+func (r *c06Rig) c07History(env *c07Env, tr, sig, after, cache string, n int, rng *kit.Rng) {
+	res := env.res
+	exp := env.tb.m[c07KeyC(tr, nil, 0, after, true, "mid", true, cache)]
+	if exp == nil {
+		res.Note("no abstract case for history %s/%s/%s", tr, after, cache)
+		res.Stat("missing_abstract_case", 1)
+		return
+	}
+	bad := func(format string, a ...any) {
+		res.Note("history %s/%s/%s/%s: "+format, append([]any{tr, sig, after, cache}, a...)...)
+		res.Stat("harness_errors", 1)
+	}
+	label := fmt.Sprintf("hist:%d:%d", r.id, n)
+	uid := rng.Bytes(16)
+	r.uids[label] = uid
+	defer delete(r.uids, label)
+	mgr := r.mgr
+	i64, i32 := usermanager.JustInt64, usermanager.JustInt32
+	c := *exp
+	c.Sig, c.UState = sig, "dbok"
+	conc := r.concretise(&c, n, rng)
+	conc.Label, conc.OffNs = label, 0
+	conc.Sid = 0x7c070000 + c07NextSid.Add(2)
+	far := time.Unix(0, conc.ClientNs).Add(1000 * time.Hour).Unix()
+	if err := mgr.WriteUserInfo(usermanager.UserInfo{UID: uid, SessionsCap: i32(10), UpRate: i64(1 << 30), DownRate: i64(1 << 30),
+		UpCredit: i64(1 << 40), DownCredit: i64(1 << 40), ExpiryTime: i64(far)}); err != nil {
+		bad("seed: %v", err)
+		return
+	}
+	defer mgr.DeleteUser(uid)
+	defer r.purgeUsers()
+	// 1. first connection: the user is authorised and must be accepted
+	remote, auth, err := r.clientSetup(&c, conc)
+	if err != nil {
+		bad("config: %v", err)
+		return
+	}
+	r.clearReplayCache()
+	r.takeRedirect()
+	cdn := strings.EqualFold(conc.Tr, "cdn")
+	link1 := r.vn.NewLink(false, false)
+	done1 := r.serve(r.serverConn(link1, cdn))
+	tr1 := remote.Transport.CreateTransport()
+	link1.End(0).SetReadDeadline(time.Now().Add(15 * time.Second))
+	_, herr := tr1.Handshake(link1.End(0), auth)
+	link1.End(0).SetReadDeadline(time.Time{})
+	close1 := func() {
+		func() {
+			defer func() { recover() }()
+			tr1.Close()
+		}()
+		link1.End(0).Close()
+	}
+	if herr != nil || r.serverSession(uid, conc.Sid) == nil {
+		close1()
+		r.waitDone(done1, 3*time.Second)
+		res.Stat("drift:history-first-connect-refused", 1)
+		res.Note("history %s/%s: the authorised user's first connection was not accepted: %v", tr, after, herr)
+		return
+	}
+	// the reconnect's first packet is sealed now (fresh ephemeral key, new session id), shown later
+	conc2 := conc
+	conc2.Sid = conc.Sid + 1
+	pkt, auth2, err := r.captureFirstPacket(&c, conc2)
+	if err != nil {
+		close1()
+		r.waitDone(done1, 3*time.Second)
+		bad("capture: %v", err)
+		return
+	}
+	// 2. revocation
+	how := after
+	switch after {
+	case "unknown":
+		err, how = mgr.DeleteUser(uid), "deleted"
+	case "expired":
+		err = mgr.WriteUserInfo(usermanager.UserInfo{UID: uid, ExpiryTime: i64(r.serverNow().Unix() - 3600)})
+	case "nocredit":
+		if n%2 == 0 {
+			err, how = mgr.WriteUserInfo(usermanager.UserInfo{UID: uid, UpCredit: i64(0)}), "no upload credit"
+		} else {
+			err, how = mgr.WriteUserInfo(usermanager.UserInfo{UID: uid, DownCredit: i64(0)}), "no download credit"
+		}
+	case "dbok":
+		how = "not revoked (control)"
+	}
+	if err != nil {
+		close1()
+		bad("revoke: %v", err)
+		return
+	}
+	// 3. the cached record: session-less (closing goroutine parked) or busy (first connection stays up)
+	var gate *c07Gate
+	if cache == "idle" {
+		gate = &c07Gate{parked: make(chan struct{}), release: make(chan struct{})}
+		c07GateMu.Lock()
+		c07Gates[uint64(conc.Sid)] = gate
+		c07GateMu.Unlock()
+		close1()
+		select {
+		case <-gate.parked:
+		case <-time.After(10 * time.Second):
+			c07GateMu.Lock()
+			delete(c07Gates, uint64(conc.Sid))
+			c07GateMu.Unlock()
+			close(gate.release)
+			bad("the closing goroutine never reached user.closesession.unlocked")
+			return
+		}
+		var a [16]byte
+		copy(a[:], uid)
+		r.sta.Panel.activeUsersM.RLock()
+		u := r.sta.Panel.activeUsers[a]
+		r.sta.Panel.activeUsersM.RUnlock()
+		if u == nil || u.NumSession() != 0 {
+			close(gate.release)
+			bad("the record is not cached session-less at the gate")
+			return
+		}
+	}
+	// 4. the reconnect
+	r.clearReplayCache()
+	r.takeRedirect()
+	link2 := r.vn.NewLink(false, false)
+	done2 := r.serve(link2.End(1))
+	peer := link2.End(0)
+	type rd struct {
+		b   []byte
+		err error
+	}
+	rch := make(chan rd, 1)
+	go func() {
+		buf := make([]byte, 2048)
+		n, err := peer.Read(buf)
+		rch <- rd{buf[:n], err}
+	}()
+	peer.SetReadDeadline(time.Now().Add(10 * time.Second))
+	peer.Write(pkt)
+	outcome, head := "silent", ""
+	classify := func(x rd) {
+		switch {
+		case len(x.b) > 0 && bytes.HasPrefix(x.b, []byte(c06RedirMarker)):
+			outcome = "redirect"
+		case len(x.b) > 0:
+			outcome = "reply"
+			h := x.b
+			if len(h) > 24 {
+				h = h[:24]
+			}
+			head = fmt.Sprintf("%q", h)
+		case errors.Is(x.err, os.ErrDeadlineExceeded):
+			outcome = "silent"
+		default:
+			outcome = "closed"
+		}
+	}
+	select {
+	case x := <-rch:
+		classify(x)
+	case <-done2:
+		// dispatchConnection has returned: a handshake reply would have been written before that; a relay
+		// delivers the target's marker a moment later
+		if r.takeRedirect() != nil {
+			peer.SetReadDeadline(time.Now().Add(5 * time.Second))
+		} else {
+			peer.SetReadDeadline(time.Now().Add(100 * time.Millisecond))
+		}
+		classify(<-rch)
+	}
+	key := c07KeyC(tr, nil, 0, after, true, "mid", true, cache)
+	res.Count("history|"+key, true)
+	res.Stat("histories", 1)
+	res.Stat("history_outcome:"+exp.Verdict+":"+cache+":"+outcome, 1)
+	switch {
+	case exp.Verdict == "must-redirect" && outcome == "reply":
+		res.Violate(fmt.Sprintf("accepted:user-%s:cache-%s", after, cache),
+			fmt.Sprintf("a database user that was authorised at its first connection and is %s now got the handshake reply %s to a first packet with a NEW session id (%s, record cached %s): the server does not currently authorise this UID",
+				how, head, tr, map[string]string{"idle": "without sessions - its last session had just been removed and TerminateActiveUser had not run yet", "busy": "with its first session still up"}[cache]),
+			map[string]any{"kind": "history", "transport": tr, "sig": sig, "after": after, "cache": cache, "n": n, "revocation": how, "outcome": outcome})
+	case exp.Verdict == "must-accept" && outcome != "reply":
+		res.Stat("drift:history-control-refused:"+cache, 1)
+		res.Note("history control %s/%s: a still authorised user reconnecting with a new session id got %s", tr, cache, outcome)
+	}
+	// 5. clean up
+	if gate != nil {
+		close(gate.release)
+	} else {
+		close1()
+	}
+	peer.Close()
+	r.waitDone(done2, 3*time.Second)
+	r.waitDone(done1, 3*time.Second)
+	_ = auth2
+}
+
 // ------------------------------------------------------------------------------------ the test
 
 func TestVerifC07Replay(t *testing.T) {
@@ -822,6 +1145,11 @@ func TestVerifC07Replay(t *testing.T) {
 	}
 	env := &c07Env{res: res, tb: tb}
 	thorough := kit.Thorough()
+	if !verifhook.Enabled {
+		t.Fatal("built without -tags verif: the history scenarios need hook point user.closesession.unlocked")
+	}
+	c07InstallGateHook()
+	defer verifhook.Set(nil)
 	t0 := time.Now()
 	sigs := []string{"chrome", "firefox", "safari"}
 	offs := []int{}
@@ -921,6 +1249,11 @@ func TestVerifC07Replay(t *testing.T) {
 					r.c07One(env, b, e, 0, 0)
 					res.Stat("multi_byte_edits", 1)
 				}
+				// forgeries that need no server key: every small-order point, with and without bit 255
+				for w := range c07SmallOrder {
+					r.c07Forged(env, b, w, false, 0, 0)
+					r.c07Forged(env, b, w, true, 0, 0)
+				}
 			}
 		}
 	}
@@ -1006,7 +1339,29 @@ func TestVerifC07Replay(t *testing.T) {
 							r.c07One(env, b, e, off, d)
 							res.Stat("environment_presentations", 1)
 						}
+						if ci == 0 || thorough {
+							r.c07Forged(env, b, k+off+ci+3, (k+off)%2 == 0, off, d)
+							res.Stat("environment_presentations", 1)
+						}
 					}
+				}
+			}
+		}
+	}
+	// ---- part C: user histories (authorised at the first connection, revoked or not, reconnect with a new session id)
+	reps := 1
+	if thorough {
+		reps = 4
+	}
+	hn := 0
+	for rep := 0; rep < reps; rep++ {
+		for _, ts := range trs {
+			for _, after := range []string{"dbok", "nocredit", "expired", "unknown"} {
+				for _, cache := range []string{"idle", "busy"} {
+					ts, after, cache := ts, after, cache
+					hn++
+					n := hn
+					jobs <- func(r *c06Rig, rng *kit.Rng) { r.c07History(env, ts.tr, ts.sig, after, cache, n, rng) }
 				}
 			}
 		}
@@ -1038,6 +1393,11 @@ func c07ReplayFile(t *testing.T, path, dir string, tb *c07Table) {
 			UIDs     map[string]string `json:"uids"`
 			User     string            `json:"user"`
 			Sid      uint32            `json:"sid"`
+			Tr       string            `json:"transport"`
+			Sig      string            `json:"sig"`
+			After    string            `json:"after"`
+			Cache    string            `json:"cache"`
+			N        int               `json:"n"`
 		} `json:"replay"`
 	}
 	raw, err := os.ReadFile(path)
@@ -1050,13 +1410,20 @@ func c07ReplayFile(t *testing.T, path, dir string, tb *c07Table) {
 	res := kit.NewResult()
 	env := &c07Env{res: res, tb: tb}
 	rng := kit.NewRng(kit.Seed())
-	if rf.Replay.Kind == "client" {
+	if rf.Replay.Kind == "client" || rf.Replay.Kind == "history" {
 		rig, err := c06NewRig(0, rng, dir)
 		if err != nil {
 			t.Fatal(err)
 		}
 		defer rig.close()
-		rig.c07Client(env, &rf.Replay.Case, rf.Replay.Conc)
+		if rf.Replay.Kind == "history" {
+			c07InstallGateHook()
+			defer verifhook.Set(nil)
+			rig.c07History(env, rf.Replay.Tr, rf.Replay.Sig, rf.Replay.After, rf.Replay.Cache, rf.Replay.N, rng)
+			fmt.Printf("history %s/%s after=%s cache=%s: stats %v notes %v\n", rf.Replay.Tr, rf.Replay.Sig, rf.Replay.After, rf.Replay.Cache, res.Stats, res.Notes)
+		} else {
+			rig.c07Client(env, &rf.Replay.Case, rf.Replay.Conc)
+		}
 		for _, v := range res.Violations {
 			fmt.Printf("REPLAY-RESULT key=%q what=%q\n", v.Key, v.What)
 		}
